@@ -161,7 +161,10 @@ def consumeAtomEscape (st : PState) : Res (Node × PState) :=
       | .error e => .error e
       | .ok (.charClass cps, rest') =>
         if fl.icase then
-          let cps := if negate then Fold.addIcaseCodePoints (CPS.inverted cps) else Fold.addIcaseCodePoints cps
+          let cps :=
+            if negate && fl.unicodeSets then CPS.inverted (Fold.addIcaseCodePoints cps)
+            else if negate then Fold.addIcaseCodePoints (CPS.inverted cps)
+            else Fold.addIcaseCodePoints cps
           .ok (mkBracket false cps, { st with input := rest' })
         else .ok (mkBracket negate cps, { st with input := rest' })
       | .ok (.stringSet strs, rest') =>
